@@ -731,12 +731,64 @@ KNOWN = {}
 
 # -- entry points ---------------------------------------------------------------------------
 
+def fold_pairs(col):
+    """History sub-check: for every zone with a repeated hour, the two
+    datetimes that differ only in `fold` (they compare and hash equal but
+    denote instants one DST shift apart) are normalised one after the other
+    in the same process, in both orders, and used in comparisons."""
+    import zoneinfo
+    sub = 'foldpairs'
+    utc = datetime.timezone.utc
+    found = 0
+    for name in ZONES:
+        tz = zoneinfo.ZoneInfo(name)
+        # locate repeated wall-clock hours: scan 2019..2022 in 1-hour steps
+        t = datetime.datetime(2019, 1, 1, tzinfo=utc)
+        end = datetime.datetime(2022, 1, 1, tzinfo=utc)
+        prev = t.astimezone(tz).utcoffset()
+        folds = []
+        while t < end and len(folds) < 3:
+            off = t.astimezone(tz).utcoffset()
+            if off < prev:
+                # clocks went back by (prev - off) at instant t
+                local = (t + off).replace(tzinfo=None)
+                folds.append((local, prev - off))
+            prev = off
+            t += datetime.timedelta(hours=1)
+        for k, (local, shift) in enumerate(folds):
+            for j, frac in enumerate((0, 1, 17, 30, 59)):
+                wall = to_us(local) + (frac * 60 * US * td_us(shift)) // (
+                    3600 * US) + j
+                order = (0, 1) if (k + j) % 2 == 0 else (1, 0)
+                for fold in order:
+                    spec = ['zone', name, fold]
+                    tt = wall_dt(wall, spec)
+                    other = tt.replace(fold=1 - fold)
+                    if tt.utcoffset() == other.utcoffset():
+                        continue
+                    found += 1
+                    oracle_normalize(col, {'wall': wall, 'tz': spec}, sub)
+                # comparisons right after both folds were normalised
+                T = wall + 3600 * US
+                for fold in order:
+                    for fn in ('older', 'newer', 'soon'):
+                        inst = wall - td_us(wall_dt(
+                            wall, ['zone', name, fold]).utcoffset())
+                        oracle_compare(col, {
+                            'fn': fn, 'T': inst, 'that': inst, 's': ['int', 0],
+                            'tz': ['zone', name, fold], 'as_str': False,
+                            'mode': 'direct'}, sub)
+    if not found:
+        col.seam(sub, 'no zone with a repeated hour found (tzdata missing?)')
+    col.exhaustive[sub] = True
+
+
 def tasks(tier, seed):
     if tier == 'quick':
         n, shards = 2000, 1
     else:
         n, shards = 8000, 2
-    out = []
+    out = [Task('foldpairs', fold_pairs)]
     step = 360
     for lo in range(-1439, 1440, step):
         out.append(Task('offsets', offsets_exhaustive, lo=lo,
